@@ -311,6 +311,7 @@ func (s *Server) Respond(reqID uint32, resp ua.Response) error {
 
 // RawAbort writes an unsecured MSG abort chunk for reqID (None mode only).
 func (s *Server) RawAbort(reqID uint32, code uint32, seq uint32) error {
+	seq = uasc.VerifChannel{S: s.SC()}.SchedTakeSequenceNumber() // the client rejects numbers that do not increase
 	reason := "verif"
 	body := make([]byte, 4+4+len(reason))
 	binary.LittleEndian.PutUint32(body, code)
@@ -466,6 +467,7 @@ func selfSigned(name string) (*SecOpts, error) {
 
 // RawMsg writes an unsecured single-chunk MSG carrying an arbitrary service body (None mode only).
 func (s *Server) RawMsg(reqID, seq uint32, svc interface{}) error {
+	seq = uasc.VerifChannel{S: s.SC()}.SchedTakeSequenceNumber() // the client rejects numbers that do not increase
 	typeID := ua.ServiceTypeID(svc)
 	m := &uasc.Message{
 		MessageHeader: &uasc.MessageHeader{
